@@ -380,8 +380,8 @@ def judge_compile(job, c, src):
     cat, form, e, p = job[0], job[1], job[2], job[3]
     name = f"{cat} {form} expected={e.name} provided={p.name if job[4] is None or cat == 'neg' else job[4]}"
     wit = {"files": {"main.capy": src}, "category": cat, "form": form, "expected": e.name, "provided": p.name, "expr": job[4] if cat != "neg" else None}
-    if c.timed_out or c.cpu_exceeded:
-        return "inconc", None, f"watchdog: {name}"
+    if c.timed_out or c.cpu_exceeded or c.sig in EXTERNAL_SIGNALS:
+        return "inconc", None, f"watchdog / killed from outside (signal {c.sig}): {name}"
     if c.internal_error:
         return "viol", {"key": "internal_error", "sig": "internal_error|" + c.panic_sig(),
                         "what": f"internal compiler error on {name}: {c.brief()[:300]}", "witness": wit}, None
@@ -404,8 +404,8 @@ def judge_compile(job, c, src):
 def judge_cast(label, c, r, src, checks):
     """-> (n_evaluations, violations, inconclusive)"""
     wit = {"files": {"main.capy": src}, "category": "cast", "label": label, "checks": checks}
-    if c.timed_out or c.cpu_exceeded:
-        return 0, [], [f"watchdog: cast {label}"]
+    if c.timed_out or c.cpu_exceeded or c.sig in EXTERNAL_SIGNALS:
+        return 0, [], [f"watchdog / killed from outside: cast {label}"]
     if c.internal_error:
         return 1, [{"key": "internal_error", "sig": "internal_error|" + c.panic_sig(), "what": f"internal compiler error on cast program {label}: {c.brief()[:300]}", "witness": wit}], []
     if not c.accepted:
@@ -426,15 +426,23 @@ def judge_cast(label, c, r, src, checks):
     return n, viol[:2], []
 
 
+EXTERNAL_SIGNALS = (2, 9, 15)
+
+
 def compile_retry(d, files):
     """the CLI binary is briefly absent while another check's build_cli() relinks it: wait instead of aborting the whole run"""
     for attempt in range(40):
         try:
-            return R.compile_capy(d, files)
+            c = R.compile_capy(d, files)
         except C.Inconclusive:
             if attempt == 39:
                 raise
             time.sleep(1.5)
+            continue
+        # SIGINT / SIGKILL / SIGTERM come from outside (another job's cleanup), not from the compiler: run again
+        if c.sig in EXTERNAL_SIGNALS and not c.timed_out and attempt < 3:
+            continue
+        return c
 
 
 def run_job(arg):
